@@ -78,7 +78,8 @@ STRUCT_ELEMS = ["@f:1| 0 9 Ȧ ; @f;", "@g:a| ←a Ṙ ; @g;", "@h:1| : J ; @h;",
 
 # well-typed applications of list-transforming elements (the top of the stack is the list): used by the "recipes"
 # pool, which alternates them with sharing ops and often applies the same recipe twice (multi-step histories)
-RECIPES = ["λ2|+; M", "λ2|-; M", "λ2|$; M", "λ3|+ +; M", "λ2|+; M L", "Þr", "ÞR", "Ṫ Þr", "0 9 Ȧ", "1 7 Ȧ", "⟨0|1⟩ 5 Ȧ", "0 λ›; ¨M", "⟨0|1⟩ λd; ¨M", "1 8 Ṁ", "0 9 Ṁ", "9 J", "9 p", "⟨8|9⟩ J", "Ṙ", "s", "U", "Ḣ", "Ṫ",
+RECIPES = ["1N 9 Ṁ", "2N 7 Ṁ", "⟨1|2|3|4⟩ $ λ›; ¨M", "⟨5|6|7⟩ $ İ", "⟨5|6|7|8⟩ $ i", "⟨1|2|3⟩ $ Ẏ", "1N 9 Ȧ", "⟨5|6|7⟩ $ ẇ",
+           "⟨5|6|7⟩ $ •", "⟨5|6|7⟩ $ Þṁ" if False else "⟨5|6|7⟩ $ J", "λ2|+; M", "λ2|-; M", "λ2|$; M", "λ3|+ +; M", "λ2|+; M L", "Þr", "ÞR", "Ṫ Þr", "0 9 Ȧ", "1 7 Ȧ", "⟨0|1⟩ 5 Ȧ", "0 λ›; ¨M", "⟨0|1⟩ λd; ¨M", "1 8 Ṁ", "0 9 Ṁ", "9 J", "9 p", "⟨8|9⟩ J", "Ṙ", "s", "U", "Ḣ", "Ṫ",
            "ḣ", "ṫ", "f", "1 Ǔ", "1 ǔ", "2 ẇ", "2 Ẏ", "1 ȯ", "∩", "›", "d", "N", "1 +", "¦", "¯", "K", "ė", "z", ": Z", ": Y",
            "2 ẋ", "÷", "y", "0 i", "1 ⟇", "9 o", "ÞḊ", "Þf", "Ġ", "⇧", "⇩", "ÞU", "ṗ", "2 l", "Ċ", "∑", "G", "g", "h", "t", "L",
            "m", "øṁ", "Þ…" if False else "L", "λ›; M", "λ₂; F", "µN;", "ƒ+", "ɖ+", "v›", "Ḃ", "W", "ÞD" if False else "w"]
@@ -156,7 +157,8 @@ class C10(core.Check):
     def gen_literal(self, r):
         x = r.random()
         if x < 0.45:
-            return str(r.randint(0, 5))
+            v = r.randint(-3, 5)
+            return str(v) if v >= 0 else f"{-v}N"
         if x < 0.55:
             return "`" + r.choice(["a", "ab", "1", "b a"]) + "`"
         if x < 0.75:
@@ -168,16 +170,20 @@ class C10(core.Check):
     def gen(self, seed, run, tier):
         rw = sub_rng(seed, self.id, run, "workload")
         rs = sub_rng(seed, self.id, run, "schedule")
-        shape = rw.choice(["mixed", "mixed", "flat", "matrix", "ragged", "strings", "pairs"])
+        shape = rw.choice(["mixed", "mixed", "flat", "matrix", "ragged", "strings", "pairs", "positions"])
         if shape == "mixed":
             val = [self.gen_value(rw, 1) for _ in range(rw.randint(1, 5))]
         elif shape == "flat":
-            val = [rw.randint(0, 9) for _ in range(rw.randint(0, 6))]  # the empty list is a value too
+            lo_ = rw.choice([0, 0, -3])  # sometimes with negative items (positions counted from the end)
+            val = [rw.randint(lo_, 9) for _ in range(rw.randint(0, 6))]  # the empty list is a value too
         elif shape == "matrix":
             c = rw.randint(1, 4)
             val = [[rw.randint(0, 9) for _ in range(c)] for _ in range(rw.randint(1, 4))]
         elif shape == "ragged":
             val = [[rw.randint(0, 9) for _ in range(rw.randint(0, 4))] for _ in range(rw.randint(2, 5))]
+        elif shape == "positions":
+            # a list that is plausible as a list of POSITIONS / indices for another list, some counted from the end
+            val = [rw.randint(-3, 3) for _ in range(rw.randint(1, 4))]
         elif shape == "strings":
             val = [rw.choice(["a", "ab", "b1", "12", "a b", "ba"]) for _ in range(rw.randint(1, 5))]
         else:
@@ -199,6 +205,8 @@ class C10(core.Check):
         if pool_kind == "recipes":
             # share, transform one reference, share again, transform again (often with the same recipe), observe
             fav = rs.choice(RECIPES)
+            if shape == "positions" and rs.random() < 0.6:
+                fav = rs.choice(["⟨1|2|3|4⟩ $ λ›; ¨M", "⟨5|6|7⟩ $ İ", "⟨5|6|7|8⟩ $ i", "⟨5|6|7|8⟩ $ λd; ¨M", "⟨5|6|7|8⟩ $ 9 Ȧ"])
             pair = rs.choice(RELATED) if rs.random() < 0.3 else None
             if rs.random() < 0.25:
                 # a list whose items are known by definition (primes, naturals, ...), shared, walked by a loop that
@@ -238,7 +246,11 @@ class C10(core.Check):
                     e = rs.choice(pool or self.keys)
                     ar = self.table[e]
                     lits = [self.gen_literal(rs) for _ in range(rs.randint(0, max(0, ar - 1)))]
-                    seq.append((" ".join(lits) + " " if lits else "") + e)
+                    # the value under test is not always the FIRST argument: swap / rotate it into the other positions
+                    perm = ""
+                    if ar >= 2 and lits and rs.random() < 0.35:
+                        perm = "$ " if (ar == 2 or len(lits) < 2 or rs.random() < 0.5) else "∇ "
+                    seq.append((" ".join(lits) + " " if lits else "") + perm + e)
                 events.append(["apply", seq])
             elif x < 0.80:
                 events.append(["force", rs.randint(0, 30), rs.randint(1, 4)])
